@@ -160,6 +160,21 @@ func eqInts(a, b []int) bool {
 	return true
 }
 
+// streamRoots is the initial pool of the stream search.
+var streamRoots = [][]int{{1, 2, 3, 4}, {2, 2}, {}}
+
+// longStreamRoots: the same search, depth 2, from long streams (any size threshold in an operation).
+func longStreamRoots() [][]int {
+	a, b := make([]int, 70), make([]int, 33)
+	for i := range a {
+		a[i] = (i*7)%40 + 1
+	}
+	for i := range b {
+		b[i] = i%5 + 1
+	}
+	return [][]int{a, b, {}}
+}
+
 // runStreams replays a program on a fresh pool; returns failure text/clause or the canonical key.
 func runStreams(family string, ops []sop, prog []step) (fail, clause, key string) {
 	mk := coll.NewG
@@ -167,7 +182,7 @@ func runStreams(family string, ops []sop, prog []step) (fail, clause, key string
 		mk = coll.NewI
 	}
 	w := &streamWorld{}
-	for _, init := range [][]int{{1, 2, 3, 4}, {2, 2}, {}} {
+	for _, init := range streamRoots {
 		c := append([]int{}, init...)
 		w.live = append(w.live, mk(init))
 		w.model = append(w.model, &c)
@@ -311,7 +326,7 @@ func searchStreams(r *lib.Report, family string, depth int, states, trans *int64
 						lib.Beat(nil)
 						fail, clause, key := runStreams(family, ops, np)
 						if fail != "" {
-							r.Violation(fmt.Sprintf("C04|stream-%s|%s", family, clause), fail, map[string]interface{}{"family": family, "program": progString(ops, np), "failure": fail, "initial_pool": "#0=[1 2 3 4] #1=[2 2] #2=[]; each step appends its result to the pool"})
+							r.Violation(fmt.Sprintf("C04|stream-%s|%s", family, clause), fail, map[string]interface{}{"family": family, "program": progString(ops, np), "failure": fail, "initial_pool": fmt.Sprintf("%v; each step appends its result to the pool", streamRoots)})
 							continue
 						}
 						if !seen[key] {
@@ -608,6 +623,10 @@ func main() {
 	}
 	for _, fam := range []string{"generic", "interface{}"} {
 		searchStreams(r, fam, sd, &states, &trans, &samples)
+		short := streamRoots
+		streamRoots = longStreamRoots()
+		searchStreams(r, fam, 2, &states, &trans, &samples)
+		streamRoots = short
 		searchSets(r, fam, md, &states, &trans, &samples)
 		searchStreamSets(r, fam, ssd, &states, &trans, &samples)
 	}
